@@ -108,4 +108,59 @@ mod verif_kani_tzstring {
             else { assert!(tc == 1 && text == ext && time == tres, "'/time' read by the parser the format version asks for"); }
         }
     }
+
+    // ---- AlternateTime::find_local_time_type: the three-year window logic over the contracts of its two callees ------------------------
+    // RuleDay::unix_time (Verus unit tzrule: the instant of the rule day in a year) and UtcDateTime::from_timespec (Verus: the civil year
+    // of an instant) are replaced by stubs that read a table the harness fills with ARBITRARY instants S[k] (DST start) and E[k] (DST
+    // end) for the years cy-1, cy, cy+1.  What is checked is the interval logic for every such table, under the DATA HYPOTHESIS that the
+    // transitions alternate: start, end, start, end ... (northern order) or end, start, end, start ... (southern order).
+    struct WTab { magic: u64, cy: i32, year_ok: bool, s: [i64; 3], e: [i64; 3], bad_call: bool, st_utc: i64, et_utc: i64 }
+    static mut WTAB: WTab = WTab { magic: 0xC0DE_5EED_D15C_0008, cy: 0, year_ok: false, s: [0; 3], e: [0; 3], bad_call: false, st_utc: 0, et_utc: 0 };
+    fn st_unix_time(d: &RuleDay, year: i32, day_time_in_utc: i64) -> i64 {
+        unsafe {
+            let k = year as i64 - WTAB.cy as i64 + 1;
+            let is_start = *d == RuleDay::Julian1WithoutLeap(1);
+            if k < 0 || k > 2 || day_time_in_utc != (if is_start { WTAB.st_utc } else { WTAB.et_utc }) { WTAB.bad_call = true; return 0; }
+            if is_start { WTAB.s[k as usize] } else { WTAB.e[k as usize] }
+        }
+    }
+    fn st_from_timespec(_t: i64) -> Result<UtcDateTime, Error> {
+        unsafe { if WTAB.year_ok { Ok(UtcDateTime { year: WTAB.cy, month: 1, month_day: 1, hour: 0, minute: 0, second: 0 }) } else { Err(Error::OutOfRange("year")) } }
+    }
+
+    // fns: AlternateTime::find_local_time_type (interval logic for every table of transition instants; hypothesis: the transitions alternate)
+    // assumes: RuleDay::unix_time, UtcDateTime::from_timespec
+    #[kani::proof]
+    #[kani::unwind(5)]
+    #[kani::stub(RuleDay::unix_time, st_unix_time)]
+    #[kani::stub(UtcDateTime::from_timespec, st_from_timespec)]
+    fn vk_tzrule_window_logic() {
+        let std_off: i32 = kani::any(); let dst_off: i32 = kani::any();
+        kani::assume(std_off > -86_400 && std_off < 86_400 && dst_off > -86_400 && dst_off < 86_400 && std_off != dst_off);
+        let (st, et): (i32, i32) = (kani::any(), kani::any());
+        let a = AlternateTime::new(LocalTimeType::new(std_off, false, None).unwrap(), LocalTimeType::new(dst_off, true, None).unwrap(),
+                                   RuleDay::Julian1WithoutLeap(1), st, RuleDay::Julian1WithoutLeap(2), et);
+        kani::assume(a.is_ok());
+        let a = a.unwrap();
+        let t: i64 = kani::any();
+        let (s, e): ([i64; 3], [i64; 3]) = (kani::any(), kani::any());
+        let cy: i32 = kani::any(); let year_ok: bool = kani::any();
+        unsafe { WTAB.cy = cy; WTAB.year_ok = year_ok; WTAB.s = s; WTAB.e = e; WTAB.st_utc = st as i64 - std_off as i64; WTAB.et_utc = et as i64 - dst_off as i64; }
+        let r = a.find_local_time_type(t);
+        assert!(!unsafe { WTAB.bad_call }, "the rule days are asked for the years cy-1, cy, cy+1 only, with the rule time converted to UTC by the offset in force before the transition");
+        kani::cover!(matches!(r, Ok(x) if x.is_dst()) && s[1] > e[1]); kani::cover!(matches!(r, Ok(x) if !x.is_dst()) && s[1] <= e[1] && t >= e[1]);
+        if !year_ok || cy < i32::MIN + 2 || cy > i32::MAX - 2 { assert!(r.is_err(), "instants whose neighbouring years cannot be formed are refused"); return; }
+        let got = match r { Ok(x) => { assert!(*x == a.std || *x == a.dst, "one of the two types"); x.is_dst() } Err(_) => { assert!(false, "a type is found"); return; } };
+        let within = |k: usize| s[k] <= t && t < e[k];
+        if s[1] <= e[1] {
+            // northern order: S0 <= E0 <= S1 <= E1 <= S2 <= E2; daylight time holds exactly inside [S_k, E_k)
+            if s[0] <= e[0] && e[0] <= s[1] && e[1] <= s[2] && s[2] <= e[2] { assert!(got == (within(0) || within(1) || within(2)), "northern order: DST exactly between a start and the following end"); }
+        } else {
+            // southern order: E0 < S0 <= E1 < S1 <= E2 < S2; daylight time holds from each start to the end of the following year
+            if e[0] < s[0] && s[0] <= e[1] && s[1] <= e[2] && e[2] < s[2] {
+                assert!(got == (t < e[0] || (s[0] <= t && t < e[1]) || (s[1] <= t && t < e[2]) || s[2] <= t), "southern order: DST from a start to the next year's end");
+            }
+        }
+    }
 }
+
